@@ -8,11 +8,14 @@
 //	sequence numbers, epochs, types and payload sizes 0..16384; records sealed by the
 //	Lean side (oracle_c04 seal) and tampered records are fed to the real decrypt.
 //
-// phase hs   : layer 2 — real handshakes (hs.go).
+// phase hs   : layer 2 — real handshakes (hs.go); ECDHE: the SM2 key agreement of one or both
+//
+//	sides is computed by a module of the driver (ka.go) so that the agreed value is known.
 //
 // phase rx   : layer 3 — genuine records with one rewritten header field, and Lean-sealed CBC
 //
-//	records with long (legal or damaged) padding, fed to the real receive paths
+//	records with long (legal or damaged) padding and Lean-sealed GCM records with a
+//	sender-chosen explicit nonce, fed to the real receive paths
 //	(Read / ReadFrom) of a live connection (rx.go).
 //
 // phase wf   : a transport write that fails after part of a protected record went out, followed by
